@@ -23,8 +23,8 @@ CHECKS = {
             SK + "c03_conservation (ids 0..counter-1 = resting + removed as multisets, at every moment), c03_no_id_fills_twice, c03_removed_never_returns, c03_ids_strictly_increasing, c03_cancel_exact / _unknown_noop, c03_tick_master (batch admitted exactly once).",
             TB + "u64 wrap-around of the id counter after 2^64 admissions is not modelled (ids are unbounded N).", "3/C03"),
     "C04": ("Coq proof: exact per-operation cash law (every Num F) + ledger by induction over all histories (R) + step-wise correspondence; one open known finding",
-            "c04_step_cash_exact, c04_step_event_exact (IEEE-exact, every Num F), c04_ledger over all histories at R. The code as it is carries the recorded defect q_liq_fail_debit (failed liquidation request <= cash debits it): c04_refuted_q_liq_fail_debit is the witness, listed in known_findings.txt; the check reports it as KNOWN-FINDING and reports any other deviation as a violation. END TO END over the composition broker + eager client + Uist server + Uist exchange for an arbitrary client (Model/BrokerSys.v, Props/C04sys.v): cash = initial + accepted deposits - successful withdrawals - buys + sells over the EXCHANGE'S OWN trade log (c04s_cash_from_exchange_log), and for the code as it is the same law with exactly one extra term, the forced debits of failed liquidation requests not exceeding cash (c04s_cash_from_exchange_log_as_is).",
-            TB + R_AX + "IEEE rounding in the summed ledger is outside c04_ledger (the step law is exact).", "3/C04"),
+            "c04_step_cash_exact, c04_step_event_exact (IEEE-exact, every Num F), c04_ledger over all histories at R. The code as it is carries the recorded defect q_liq_fail_debit (failed liquidation request <= cash debits it): c04_refuted_q_liq_fail_debit is the witness, listed in known_findings.txt; the check reports it as KNOWN-FINDING and reports any other deviation as a violation. END TO END over the composition broker + eager client + Uist server + Uist exchange for an arbitrary client (Model/BrokerSys.v, Props/C04sys.v): cash = initial + accepted deposits - successful withdrawals - buys + sells over the EXCHANGE'S OWN trade log (c04s_cash_from_exchange_log), and for the code as it is the same law with exactly one extra term, the forced debits of failed liquidation requests not exceeding cash (c04s_cash_from_exchange_log_as_is). AT THE IEEE INSTANCE for whole-unit amounts (Props/C04float.v, via Flocq): over ALL histories whose amounts (deposits, withdrawals, trade values) are integer-valued binary64 values with |initial cash| + total of all |amounts| below 2^53, the float cash IS the integer ledger — accepted deposits - successful withdrawals - buys + sells, each once — as an equality of floats, the accept / refuse decisions being the integer comparisons (c04f_history, c04f_headline), and for the code as it is with the one extra integer term (c04f_as_is).",
+            TB + R_AX + "For fractional amounts IEEE rounding in the summed ledger is outside c04_ledger (the step law is exact); for whole-unit amounts below 2^53 in total volume there is no rounding (Props/C04float.v, which additionally depends on the specification axioms the standard library declares for primitive floats and 63-bit integers, listed by name in the evidence).", "3/C04"),
     "C05": ("Coq proof: step laws (every Num F) + reconciliation of holdings/pending with the log by induction over all histories (R) + IEEE exactness for whole shares (Flocq) + step-wise correspondence",
             "c05_holdings_reconcile, c05_pending_reconcile, c05_no_zero, c05_log_step, c05_with_pending at R; and at the IEEE instance for whole shares (Props/C05float.v, via Flocq): binary64 +, -, ==0 are exact on integer-valued floats below 2^53, lifted to book_trade and whole trade lists — c05f_holdings_are_bought_minus_sold: the float holdings ARE bought minus sold and a flat position is absent, no rounding. END TO END over the composition for an arbitrary client (Props/C05sys.v): the broker's trade log IS the exchange's own trade log of its backtest, holdings are bought minus sold over it, pending exposure per symbol equals the signed quantity of this broker's orders the exchange still holds and the map is empty as soon as none is left (c05s_pending_from_fresh).",
             TB + R_AX + "Props/C05float.v additionally depends on the specification axioms the standard library declares for primitive floats and 63-bit integers (FloatAxioms.add_spec, sub_spec, eqb_spec, opp_spec, of_uint63_spec, Prim2SF_valid, SF2Prim_Prim2SF, Prim2SF_SF2Prim; Uint63.add_spec, sub_spec, lsl_spec, lsr_spec, lor_spec, ltb_spec, leb_spec, eqb_refl, eqb_correct, of_to_Z), listed by name in the evidence. Fractional quantities: the [R] theorems stand, the gap is rounding.", "3/C05, 8.2"),
